@@ -78,6 +78,7 @@ class Trace(object):
         self.sent = []      # hex of every sendall, in order
         self.tlog = []
         self.crash = None
+        self.crash_with_gen = False
         self.blocked = None
         self.steps = 0
 
@@ -122,6 +123,7 @@ class Runner(object):
         p = self.p
         before = (p.state, len(p.event), len(p.raw_pdu), self._sent_seen, p.from_service_user.qsize(),
                   p.dimse_gen is not None, len(self.sock.inbox) if self.sock else 0, len(p.tlog))
+        self.gen_pending = p.dimse_gen is not None       # the provider itself still owes fragments of a message
         try:
             e = p.step()
         except s2.WouldBlockForever as x:
@@ -130,6 +132,7 @@ class Runner(object):
         self.tr.steps += 1
         if e is not None:
             self.tr.crash = '%s: %s' % (type(e).__name__, e)
+            self.tr.crash_with_gen = self.gen_pending
             self._collect()
             return False
         inds = self._collect()
